@@ -80,7 +80,47 @@ def run(ctx):
         c = {'id': 't%d' % i, 'text': prog, 'actions': acts, 'threaded': True, 'delay': delay}
         c['line'] = 'ctl2 %s %s %s %s' % (c['id'], hexf(prog), hexf(str(delay)), hexf(acts))
         threaded.append(c)
-    impl, model = vc.run_cases(ctx, cases, timeout_ms=15000)
+    # control actions issued at an exact instruction boundary of a running execute(start) (hook
+    # verif_before_instruction): deterministic, compared with the model
+    inj = []
+    ig = ctlgen.CtlGen(ctx.rng.fork('inject'))
+    for i in range(300 if quick else 5000):
+        text, _ = ig.program()
+        k = ctx.rng.below(40)
+        acts = ctx.rng.choice(['T', 'A', 'S', 'TS', 'ST', 'SA', 'al', 'TT', 'vT', 'STS', 'AS', 'SSTS'])
+        c = {'id': 'j%d' % i, 'text': text, 'actions': acts, 'k': k}
+        c['line'] = 'ctl3 %s %s %s %s' % (c['id'], hexf(text), hexf(str(k)), hexf(acts))
+        inj.append(c)
+    impl, model = vc.run_cases(ctx, cases + inj, timeout_ms=15000)
+    n_inj_bad = n_inj_fired = 0
+    import re as _re
+    for c in inj:
+        got = impl.get(c['id']) or ''
+        m = _re.match(r'ctl=([\w,]*) exec=(\w+) state=(\w+) contexts=(\d+) \| tr=(.*)$', got)
+        bad = None
+        if not m:
+            bad = {'expected': 'an observation', 'implementation': got[:300]}
+        elif m.group(1):
+            n_inj_fired += 1
+            rs = m.group(1).split(',')
+            for a, r in zip(c['actions'], rs):
+                if a in 'TA' and r != 'ok':
+                    bad = {'expected': 'stop/abort issued while the VM runs is accepted', 'implementation': got[:300]}
+                if a not in 'TA' and r != 'action_error':
+                    bad = {'expected': 'an executing action issued while the VM runs is refused', 'implementation': got[:300]}
+            if not bad and any(a in 'TA' for a in c['actions']) and (m.group(3) != 'empty' or m.group(4) != '0'):
+                bad = {'expected': 'an accepted stop/abort ends the run: VM empty, no script left', 'implementation': got[:300]}
+        if bad:
+            n_inj_bad += 1
+            if n_inj_bad <= 2:
+                rep.violation('oracle', {'property': 'C19', 'kind': 'injected-control', 'seed': ctx.seed, 'case': c['id'], 'program': c['text'],
+                                         'actions': c['actions'], 'before_instruction': c['k'] + 1, 'difference': bad, 'line': c['line']})
+        elif model is not None and got != (model.get(c['id']) or ''):
+            n_inj_bad += 1
+            if n_inj_bad <= 2:
+                rep.violation('correspondence', {'property': 'C19', 'kind': 'injected-control model-vs-implementation', 'seed': ctx.seed, 'case': c['id'],
+                                                 'program': c['text'], 'actions': c['actions'], 'before_instruction': c['k'] + 1,
+                                                 'implementation': got[:2000], 'model': (model.get(c['id']) or '')[:2000], 'line': c['line']})
     timpl, _ = ctx.run_pair([c['line'] for c in threaded], timeout_ms=20000, model=False)
     n_thr_bad = 0
     for c in threaded:
@@ -151,9 +191,9 @@ def run(ctx):
                                                  'program': c['text'], 'actions': c['actions'], 'implementation': (got or '')[:3000],
                                                  'model': (model.get(c['id']) or '')[:3000], 'line': c['line']})
     cov = {'evaluations': len(cases), 'distinct_nontrivial': len(distinct),
-           'rule': 'programs of 2-8 statements laid out over several lines (two statements on a line, empty lines, nested call/if/for/forEach blocks, an erroring statement) or no script at all; per program one reference run of assembly steps and three random action sequences (length 1-8 over start, stop, abort, assembly step, line step, leave scope); oracle 1: the action table on the reported results and states; oracle 2: every mixed sequence must end each action exactly where single stepping says (first instruction of another line, frame stack below the starting frame, end of script, failing instruction); the Lean model must give the same result, state, next line, frame depth and trace; plus runs with two real threads (executor inside execute(start) on a script that never ends, controller issuing stop/abort/start after 20-3000 us): both threads must return, the first stop/abort is accepted, a competing start is refused, the VM ends empty; distinct by case line',
+           'rule': 'programs of 2-8 statements laid out over several lines (two statements on a line, empty lines, nested call/if/for/forEach blocks, an erroring statement) or no script at all; per program one reference run of assembly steps and three random action sequences (length 1-8 over start, stop, abort, assembly step, line step, leave scope); oracle 1: the action table on the reported results and states; oracle 2: every mixed sequence must end each action exactly where single stepping says (first instruction of another line, frame stack below the starting frame, end of script, failing instruction); the Lean model must give the same result, state, next line, frame depth and trace; plus execute(start) runs in which a controller issues stop/abort/start/steps right before a chosen instruction (deterministic, through the guarded hook verif_before_instruction; results, final state, remaining scripts and the trace — exactly one late instruction — compared with the model); plus runs with two real threads (executor inside execute(start) on a script that never ends, controller issuing stop/abort/start after 20-3000 us): both threads must return, the first stop/abort is accepted, a competing start is refused, the VM ends empty; distinct by case line',
            'samples': samples, 'oracle_failures': n_or, 'model_mismatches': n_mm, 'undecided_by_reference': n_undec,
-           'actions_exercised': acts_count, 'generator_counts': g.stats, 'threaded_runs': len(threaded), 'threaded_failures': n_thr_bad}
+           'actions_exercised': acts_count, 'generator_counts': g.stats, 'threaded_runs': len(threaded), 'threaded_failures': n_thr_bad, 'injected_runs': len(inj), 'injected_runs_where_the_controller_got_its_turn': n_inj_fired, 'injected_failures': n_inj_bad}
     return rep.finish(cov, ['interleavings of the two threads are covered exhaustively only by the interleaving model and its theorems; the threaded runs on the implementation sample real schedules (outcome sets, not compared step by step) and cannot exhibit memory-model effects',
                             'the line of an instruction in the model is derived from the statement layout of the generated program',
                             'evaluate_expression and breakpoints are outside the model'])
